@@ -844,6 +844,34 @@ func runScript(id string, script []action) (trace []J, hang string) {
 		if len(kr) > 0 {
 			w.settleFor(10 * time.Millisecond)
 		}
+		// local calls whose outcome exists (the peer's Return was delivered, or the local method body returned) get a moment to
+		// report it: the goroutine that waits for the answer may not have run yet on a busy machine
+		for i := 0; i < 400; i++ {
+			w.mu.Lock()
+			issued, have, ready := map[int]bool{}, map[int]bool{}, map[int]bool{}
+			for _, e := range w.trace {
+				tag, _ := e["tag"].(int)
+				switch {
+				case e["ev"] == "l-call" || e["ev"] == "l-pcall":
+					issued[tag] = true
+				case e["ev"] == "l-result":
+					have[tag] = true
+				case e["ev"] == "app-return" || (e["ev"] == "msg" && e["dir"] == "recv" && e["m"] == "return"):
+					ready[tag] = true
+				}
+			}
+			w.mu.Unlock()
+			missing := false
+			for tag := range issued {
+				if ready[tag] && !have[tag] {
+					missing = true
+				}
+			}
+			if !missing {
+				break
+			}
+			time.Sleep(5 * time.Millisecond)
+		}
 		w.log(J{"ev": "quiesce"})      // obligations about calls and returns (C06)
 		w.log(J{"ev": "quiesce-refs"}) // obligations about references (C07)
 		if closed {
